@@ -8,7 +8,7 @@ from vlib.common import Inconclusive, Scratch
 from checks.c17 import judge
 
 LOC = ["union_is_least_upper_bound", "contains_is_a_partial_order"]
-SCAN = ["scan_skip_whitespace", "scan_string_literal", "scan_string_literal_short", "scan_string_literal_multibyte", "scan_string_literal_two_byte_fixed", "scan_line_comment", "scan_block_comment", "scan_escape_validation_total"]
+SCAN = ["scan_skip_whitespace", "scan_string_literal", "scan_string_literal_short", "scan_string_literal_multibyte", "scan_string_literal_two_byte_fixed", "scan_line_comment", "scan_block_comment", "scan_block_comment_fixed_shapes", "scan_escape_validation_total"]
 
 
 def prepare(sc):
@@ -81,7 +81,7 @@ def crash_corpus(res):
         drv = ws.build_driver(sc)
         for f in sorted(glob.glob(os.path.join(VERIF, "corpus_crash", "*.sam"))):
             try:
-                p = subprocess.run([drv, "typecheck", "Main=" + f], capture_output=True, text=True, timeout=60)
+                p = subprocess.run([drv, "survive", f], capture_output=True, text=True, timeout=60)
                 st = "ok" if p.returncode == 0 and p.stdout.strip().startswith("{") else "crash (exit %d)" % p.returncode
             except subprocess.TimeoutExpired:
                 st = "hang (> 60 s)"
@@ -90,6 +90,87 @@ def crash_corpus(res):
                 res.violation("the front end does not survive the input %s: %s" % (os.path.basename(f), st),
                               {"property": "C05", "input_file": f, "input": open(f, errors="replace").read()[:400], "status": st})
     rows += parser_progress_corpus(res, drv)
+    rows += stress_corpus(res, drv)
+    return rows
+
+
+def stress_inputs():
+    """name -> module text: "reasonably sized" inputs that are long or deep in one dimension.  Nesting depth and
+    expression length stay at or below 1000: the recursive-descent parser and the tree walkers have no depth guard and
+    overflow the 8 MB main-thread stack of a release build at about 1500 unclosed braces / 2000 terms of a sum, which
+    is recorded as an observation in DESIGN.md, not as a violation (C05 speaks of reasonably sized input)."""
+    main = "\nclass Main { function g(a: int): int = a  function main(): unit = {  } }\n"
+    out = {}
+    out["line_comment_70_short_words"] = "// " + " ".join("-" for _ in range(70)) + main
+    out["block_comment_40_short_words"] = "/* " + " ".join("10" for _ in range(40)) + " */" + main
+    out["doc_comment_45_short_words"] = "/** " + " ".join("ab" for _ in range(45)) + " */" + main
+    out["comment_of_3000_characters"] = "// " + "x" * 3000 + main
+
+    def nest_if(d):
+        e = "0"
+        for i in range(d):
+            e = "if a > %d { %d } else { %s }" % (i, i, e)
+        return e
+    for d in (8, 14, 24):
+        out["if_in_else_block_depth_%d" % d] = "class A { function f(a: int): int = %s }" % nest_if(d) + main
+    out["else_if_chain_60"] = "class A { function f(a: int): int = %s else { 0 } }" % " else ".join("if a > %d { %d }" % (i, i) for i in range(60)) + main
+    for d in (200, 1000):
+        out["parentheses_depth_%d" % d] = "class A { function f(a: int): int = %s a %s }" % ("(" * d, ")" * d) + main
+        out["blocks_depth_%d" % d] = "class A { function f(a: int): int = %s a %s }" % ("{ " * d, " }" * d) + main
+    out["statements_5000"] = "class A { function f(a: int): unit = { %s } }" % " ".join("let _ = Main.g(1);" for _ in range(5000)) + main
+    out["string_literal_20000"] = 'class A { function f(): Str = "%s" }' % ("s" * 20000) + main
+    out["identifier_5000"] = "class A { function f(%s: int): int = 1 }" % ("v" * 5000) + main
+    out["members_600"] = "class A { %s }" % " ".join("function f%d(a: int): int = a + %d" % (i, i) for i in range(600)) + main
+    out["match_arms_16_variants_nested"] = "class E(%s) { method m(): int = match this { %s } }" % (
+        ", ".join("V%d(int)" % i for i in range(16)), ", ".join("V%d(x) -> x + %d" % (i, i) for i in range(16))) + main
+    out["type_nesting_60"] = "import { Option } from std.option;\nclass A { function f(x: %sint%s): int = 1 }" % ("Option<" * 60, ">" * 60) + main
+    out["sum_of_1000_terms"] = "class A { function f(a: int): int = %s }" % " + ".join("a" for _ in range(1000)) + main
+    out["negations_600"] = "class A { function f(a: bool): bool = %sa }" % ("!" * 600) + main
+    out["call_chain_300"] = "class B(val v: int) { method n(): B = this }\nclass A { function f(b: B): B = b%s }" % (".n()" * 300) + main
+    out["lambda_nesting_80"] = "class A { function f(): int = %s 1 %s }" % ("(() -> " * 80, ")()" * 80) + main
+    out["unclosed_braces_800"] = "class A { function f(): int = " + "{ " * 800
+    out["closing_parens_3000"] = "class A { function f(): int = 1 " + ") " * 3000 + "}"
+    out["commas_3000"] = "class A { function f(): int = A.f(" + "," * 3000 + ") }"
+    return out
+
+
+def stress_corpus(res, drv):
+    """C05 gate (not a solver verdict): inputs that are long or deep in one dimension go through every stage C05 names
+    (driver `survive`: parse, check, render diagnostics in both formats, format, compile) under a 20 s / 2 GB limit."""
+    import concurrent.futures
+    import shutil
+    import subprocess
+    import tempfile
+    from vlib.common import load_known
+    known = {k.get("stress_input"): k for k in load_known("C05") if k.get("stress_input")}
+    d = tempfile.mkdtemp(prefix="c05stress", dir="/var/tmp")
+    jobs = []
+    for name, text in stress_inputs().items():
+        path = os.path.join(d, name + ".sam")
+        open(path, "w").write(text)
+        jobs.append((name, path))
+
+    def one(job):
+        name, path = job
+        t0 = time.time()
+        try:
+            p = subprocess.run(["prlimit", "--as=2000000000", drv, "survive", path], capture_output=True, text=True, timeout=20)
+            st = "ok" if p.returncode == 0 and p.stdout.strip().startswith("{") else "crash (exit %d): %s" % (p.returncode, p.stderr.strip().split("\n")[-1][:160])
+        except subprocess.TimeoutExpired:
+            st = "hang (> 20 s)"
+        return name, path, st, round(time.time() - t0, 2)
+    rows = []
+    with concurrent.futures.ThreadPoolExecutor(max_workers=6) as ex:
+        for name, path, st, secs in ex.map(one, jobs):
+            rows.append({"input": "stress:" + name, "status": st, "seconds": secs})
+            if st == "ok":
+                continue
+            if name in known:
+                res.known("%s %s" % (known[name]["id"], known[name]["short"]))
+                continue
+            res.violation("the front end does not survive the stress input %s: %s" % (name, st),
+                          {"property": "C05", "stress_input": name, "input_head": open(path).read()[:300], "status": st})
+    shutil.rmtree(d, ignore_errors=True)
     return rows
 
 
@@ -143,7 +224,7 @@ def parser_progress_corpus(res, drv):
     def one(job):
         tn, tok, path = job
         try:
-            p = subprocess.run(["prlimit", "--as=2000000000", drv, "typecheck", "Main=" + path], capture_output=True, text=True, timeout=20)
+            p = subprocess.run(["prlimit", "--as=2000000000", drv, "survive", path], capture_output=True, text=True, timeout=20)
             return job, ("ok" if p.returncode == 0 and p.stdout.strip().startswith("{") else "crash (exit %d)" % p.returncode)
         except subprocess.TimeoutExpired:
             return job, "hang (> 20 s)"
